@@ -461,9 +461,9 @@ fn split_cfg() -> PicCfg {
 pub fn run(ctx: &Ctx) -> i32 {
     let cfg = cfg_for(ctx.tier);
     let mut reports = vec![super::regression_suite(ctx)];
-    let cases = ctx.tier.pick(40_000u64, 600_000u64);
+    let cases = ctx.tier.pick(40_000u64, 1_200_000u64);
     reports.push(tape_suite(ctx, "history_failure_continuation", cases, 8192, &move |g| triple_case(g, &cfg)));
-    let scases = ctx.tier.pick(600u64, 10_000u64);
+    let scases = ctx.tier.pick(600u64, 20_000u64);
     let scfg = split_cfg();
     reports.push(tape_suite(ctx, "all_split_points", scases, 2048, &move |g| split_case(g, &scfg)));
     let lcases = ctx.tier.pick(400u64, 4_000u64);
